@@ -19,6 +19,10 @@ Time is `Nat` (nanoseconds since the epoch of the base clock; any tick works).
 |                       | runs the same re-arm loop with `maximumSuspensionTimer` in the place  |
 |                       | of the base context's deadline and `Stop` in the place of `cancel`)   |
 | `fire`                | `fireL` when every expiry is handled at the instant it is due         |
+| `execRun`             | the run stage of `localBuildExecutor.Execute`                         |
+|                       | (`pkg/builder/local_build_executor.go`: `NewContextWithTimeout(...,   |
+|                       | executionTimeout)`, `runner.Run`, `cancelTimeout()`, `<-Done()`,      |
+|                       | `UnsuspendedDurationKey` -> `VirtualExecutionDuration`)               |
 
 Late handling of expiries (the gap between a base timer firing and the
 goroutine acquiring `c.lock`).  A base timer armed at `a` with duration `d` is
@@ -251,5 +255,59 @@ def fireL (P : Params) (g : Nat) (tl : List Ev) (cn : Option Cancel) (t0 d dlLat
 /-- Every expiry and the deadline handled at the instant they are due. -/
 def fire (P : Params) (tl : List Ev) (cn : Option Cancel) (t0 d : Nat) : Out :=
   fireL P 0 tl cn t0 d 0 false []
+
+/-! ## `localBuildExecutor.Execute`: running the command
+
+```go
+ctxWithTimeout, cancelTimeout := be.clock.NewContextWithTimeout(ctxWithIOError, executionTimeout)
+runResponse, runErr := be.runner.Run(ctxWithTimeout, …)
+cancelTimeout()
+<-ctxWithTimeout.Done()
+if runErr == nil { ExitCode = … } else { attachErrorToExecuteResponse(response, runErr) }
+if d, ok := ctxWithTimeout.Value(UnsuspendedDurationKey{}).(time.Duration); ok { VirtualExecutionDuration = d }
+```
+The runner (a gRPC client) returns either when the command ends by itself or when
+its context is done, in which case its error is `status.FromContextError(ctx.Err())`
+(`DEADLINE_EXCEEDED` for both the timeout and the cap). -/
+
+/-- How the command ends if it is left alone. -/
+inductive RunEnd where
+  | exit (code : Nat)   -- `runner.Run` returns a `RunResponse` with this exit code
+  | failed              -- `runner.Run` returns an error of its own (not a context error)
+deriving Repr, DecidableEq
+
+/-- The command ends by itself at `t` (`pre`: it wins a tie against a timer expiry at `t`). -/
+structure RunFinish where
+  t   : Nat
+  pre : Bool
+  how : RunEnd
+deriving Repr, DecidableEq
+
+inductive Code where
+  | ok
+  | deadlineExceeded
+  | runnerError
+deriving Repr, DecidableEq
+
+structure ExecResult where
+  code     : Code         -- code of `ExecuteResponse.status`
+  exitCode : Option Nat   -- `ActionResult.exit_code`, when the runner returned a response
+  virt     : Nat          -- `ExecutionMetadata.virtual_execution_duration`: set in EVERY outcome
+  instant  : Nat          -- when the run stage is over
+deriving Repr, DecidableEq
+
+/-- The run stage of an action with execution timeout `d` that starts running at `t0`;
+`fin = none`: the command never ends by itself. The context is cancelled by the executor
+(`cancelTimeout()`) exactly when the runner returned because the command ended. -/
+def execRun (P : Params) (tl : List Ev) (t0 d : Nat) (fin : Option RunFinish) : Option ExecResult :=
+  match fire P tl (fin.map fun f => ⟨f.t, f.pre⟩) t0 d with
+  | .done r =>
+    match r.reason, fin with
+    | .cancelled, some f =>
+      match f.how with
+      | .exit c => some ⟨.ok, some c, r.dur, r.instant⟩
+      | .failed => some ⟨.runnerError, none, r.dur, r.instant⟩
+    | _, _ => some ⟨.deadlineExceeded, none, r.dur, r.instant⟩
+  | _ => none
 
 end BbRe.SusClock
